@@ -162,7 +162,8 @@ theorem glif_roundtrip_partial_no_object_libs (hc : Codec f rd nc ok) {g : Glyph
     (hkey : dictGet objectLibsKey g.lib = none)
     (hlib : reindentDict f.indent g.lib = g.lib)
     (hnote : ∀ n, g.note = some n → trimText n = n ∧ n ≠ [])
-    (hadv : (isNormal g.width = true ∨ g.width = 0) ∧ (isNormal g.height = true ∨ g.height = 0)) :
+    (hadv : (isNormal g.width = true ∨ g.width = 0) ∧ (isNormal g.height = true ∨ g.height = 0))
+    (hne : ∀ c, c ∈ g.contours → c.points ≠ []) :
     parseGlif rd (encodeGlif f g) = .ok (normG nc g) := by
   rw [parse_encode hc hv]
   have hw : writtenLib g = g.lib := by simp [writtenLib, dump_empty_of_no_libs hobj]
@@ -182,7 +183,7 @@ theorem glif_roundtrip_partial_no_object_libs (hc : Codec f rd nc ok) {g : Glyph
     · simp [h, isNormal_nonZero h]
     · simp [h]
   have hpre : preG f nc g = normG nc g := by
-    simp only [preG, normG, hw, hlib, hn, hwd, hht]
+    simp only [preG, normG, hw, hlib, hn, hwd, hht, keepContours_of_nonempty hne]
   rw [hpre]
   have : dictGet objectLibsKey (normG nc g).lib = none := hkey
   simp [loadObjectLibs, this]
@@ -289,20 +290,23 @@ def normGL (nc : Color → Color) (g : Glyph) : Glyph :=
 /-- **glif_roundtrip_partial**: for every valid glyph — object libs included, each on an object with an identifier —
     under the guards the recorded findings force (no newline in any string or key of any lib of the glyph — the oracle's
     own `lib-newline` feature test `Spec02.guardFeatures` —, a note
-    that is its own non-empty trim, an advance that is normal or `+0`, the reserved key unused) the parser accepts what
+    that is its own non-empty trim, an advance that is normal or `+0`, the reserved key unused, no contour without points)
+    the parser accepts what
     the writer produces, for ANY options, and returns `normGL nc g`, which does not mention the options. -/
 theorem glif_roundtrip_partial (hc : Codec f rd nc ok) {g : Glyph} (hv : ValidGlyph ok g) (hl : LibsIdentified g)
     (hkey : dictGet objectLibsKey g.lib = none)
     (hnl : (Spec02.allLibs g).any Spec02.dictHasNewline = false)
     (hnote : ∀ n, g.note = some n → trimText n = n ∧ n ≠ [])
-    (hadv : (isNormal g.width = true ∨ g.width = 0) ∧ (isNormal g.height = true ∨ g.height = 0)) :
+    (hadv : (isNormal g.width = true ∨ g.width = 0) ∧ (isNormal g.height = true ∨ g.height = 0))
+    (hne : ∀ c, c ∈ g.contours → c.points ≠ []) :
     parseGlif rd (encodeGlif f g) = .ok (normGL nc g) := by
   replace hnl := writtenLib_no_newline hv hkey hnl
   rw [parse_encode hc hv]
   have hlib : (preG f nc g).lib = writtenLib g := by
     simp only [preG]
     exact reindentDict_id f.indent _ hnl
-  rw [encode_then_parse_restores_object_libs (nc := nc) hv.idents hl hkey (preG f nc g) rfl rfl rfl rfl hlib]
+  rw [encode_then_parse_restores_object_libs (nc := nc) hv.idents hl hkey (preG f nc g) rfl rfl
+    (by simp only [preG]; exact keepContours_of_nonempty hne) rfl hlib]
   have hn : pNote g.note = g.note := by
     cases hgn : g.note with
     | none => rfl
@@ -319,6 +323,82 @@ theorem glif_roundtrip_partial (hc : Codec f rd nc ok) {g : Glyph} (hv : ValidGl
     · simp [h]
   simp only [preG, normGL, hn, hwd, hht]
 
+end
+
+/-! ### seed round 4: contours without points are the only contours lost -/
+
+section
+variable {f : Fmt} {rd : Str → Option Nat} {nc : Color → Color} {ok : Nat → Prop}
+
+/-- `g` without its contours that have no points -/
+def dropEmpty (g : Glyph) : Glyph := { g with contours := g.contours.filter (fun c => !c.points.isEmpty) }
+
+theorem foldl_filter_skip {α β : Type} (fn : β → α → β) (p : α → Bool) :
+    ∀ (l : List α) (b : β), (∀ a, a ∈ l → p a = false → ∀ b, fn b a = b) → l.foldl fn b = (l.filter p).foldl fn b := by
+  intro l
+  induction l with
+  | nil => intro b _; rfl
+  | cons a r ih =>
+    intro b h
+    cases hp : p a with
+    | true =>
+      simp only [List.filter_cons, hp, if_true, List.foldl_cons]
+      exact ih _ (fun x hx => h x (List.mem_cons_of_mem _ hx))
+    | false =>
+      simp only [List.filter_cons, hp, List.foldl_cons, h a List.mem_cons_self hp b]
+      exact ih _ (fun x hx => h x (List.mem_cons_of_mem _ hx))
+
+theorem flatMap_filter_sublist {α β : Type} (fn : α → List β) (p : α → Bool) :
+    ∀ (l : List α), ((l.filter p).flatMap fn).Sublist (l.flatMap fn) := by
+  intro l
+  induction l with
+  | nil => exact List.Sublist.refl _
+  | cons a r ih =>
+    cases hp : p a with
+    | true =>
+      simp only [List.filter_cons, hp, if_true, List.flatMap_cons]
+      exact List.Sublist.append (List.Sublist.refl _) ih
+    | false =>
+      simp only [List.filter_cons, hp, List.flatMap_cons]
+      exact ih.trans (List.sublist_append_right _ _)
+
+theorem dump_dropEmpty {g : Glyph} (hnolib : ∀ c, c ∈ g.contours → c.points = [] → c.lib = none) :
+    dumpObjectLibs (dropEmpty g) = dumpObjectLibs g := by
+  unfold dumpObjectLibs dropEmpty
+  simp only
+  rw [← foldl_filter_skip _ (fun c : Contour => !c.points.isEmpty) g.contours _ ?_]
+  intro c hc hp b
+  have he : c.points = [] := by
+    cases hpp : c.points with
+    | nil => rfl
+    | cons _ _ => simp [hpp] at hp
+  rw [hnolib c hc he, he, dumpOne_none]
+  rfl
+
+theorem valid_dropEmpty {g : Glyph} (hv : ValidGlyph ok g) : ValidGlyph ok (dropEmpty g) := by
+  refine ⟨hv.name, hv.width, hv.height, hv.codepoints, hv.codepointsNodup, hv.image, hv.anchors, hv.guidelines,
+    fun c hc => hv.contours c (List.mem_filter.1 hc).1, hv.components, ?_⟩
+  refine List.Nodup.sublist ?_ hv.idents
+  simp only [Spec.glyphIdents, dropEmpty]
+  exact List.Sublist.append (List.Sublist.append (List.Sublist.refl _) (flatMap_filter_sublist _ _ _)) (List.Sublist.refl _)
+
+/-- **empty_contours_only_loss**: the writer model writes every contour (skip-and-continue is the parser's `end_path`, not
+    a `break` in the writer), so a glyph with contours that have no points (carrying no lib of their own) is read back
+    exactly as the same glyph without them: the contours without points are the ONLY loss — every other contour comes
+    back, in order, with its identifier, its points and its libs (`parse_encode`, `glif_roundtrip_partial` for
+    `dropEmpty g`). -/
+theorem empty_contours_only_loss (hc : Codec f rd nc ok) {g : Glyph} (hv : ValidGlyph ok g)
+    (hnolib : ∀ c, c ∈ g.contours → c.points = [] → c.lib = none) :
+    parseGlif rd (encodeGlif f g) = parseGlif rd (encodeGlif f (dropEmpty g)) := by
+  rw [parse_encode hc hv, parse_encode hc (valid_dropEmpty hv)]
+  have hw : writtenLib (dropEmpty g) = writtenLib g := by
+    unfold writtenLib
+    rw [dump_dropEmpty hnolib]
+    rfl
+  have hk : keepContours (dropEmpty g).contours = keepContours g.contours := by
+    simp [keepContours, dropEmpty, List.filter_filter]
+  simp only [preG, hw, hk]
+  rfl
 end
 
 /-! ### non-vacuity of the codec hypotheses and of `ValidGlyph` -/
@@ -349,7 +429,7 @@ theorem valid_g0 : ValidGlyph ok0 g0 := by
     exact ⟨rfl, rfl, by intro n hn; cases hn; decide, by intro i hi; cases hi; decide⟩
   · intro a ha; simp [g0] at ha
   · intro c hc; simp [g0] at hc; subst hc
-    refine ⟨?_, by decide, by simp, by intro i hi; cases hi⟩
+    refine ⟨?_, by decide, by intro i hi; cases hi⟩
     intro p hp; simp at hp; subst hp
     exact ⟨rfl, rfl, (by intro n hn; cases hn), (by intro i hi; cases hi; decide)⟩
   · intro k hk; simp [g0] at hk; subst hk
@@ -362,6 +442,7 @@ example : parseGlif R0 (encodeGlif F0 g0) = .ok (normG nc0 g0) :=
      by intro c hc; simp [g0] at hc; subst hc; exact ⟨rfl, by intro p hp; simp at hp; subst hp; rfl⟩,
      by intro a ha; simp [g0] at ha; subst ha; rfl⟩
     (by decide) (by simp [g0, F0, reindentDict, reindentPV, reindent]) (by intro n hn; cases hn) ⟨Or.inr rfl, Or.inr rfl⟩
+    (by intro c hc; simp [g0] at hc; subst hc; simp)
 
 def g1 : Glyph :=
   { g0 with anchors := [{ x := 0, y := 0, name := some ['t'], color := some ⟨0, 0, 0, 0⟩, ident := some ['i'],
@@ -380,6 +461,7 @@ example : parseGlif R0 (encodeGlif F0 g1) = .ok (normGL nc0 g1) :=
      by intro c hc; simp [g1, g0] at hc; subst hc; exact ⟨by simp, by intro p hp; simp at hp; subst hp; simp⟩,
      by intro a ha h; simp [g1, g0] at ha; subst ha; rfl⟩
     (by decide) (by decide +kernel) (by intro n hn; cases hn) ⟨Or.inr rfl, Or.inr rfl⟩
+    (by intro c hc; simp [g1, g0] at hc; subst hc; simp)
 
 /-! ### non-vacuity of `legal_accepted` (C12): items out of canonical order, comments everywhere -/
 
